@@ -223,7 +223,8 @@ pub fn generate() {
   }
   let tier = crate::report::tier_from_args();
   let thorough = tier == "thorough";
-  let dir = "/verif/target/c02";
+  let dir_s = format!("{}/target/c02", crate::report::root());
+  let dir = dir_s.as_str();
   let _ = std::fs::remove_dir_all(dir);
   std::fs::create_dir_all(dir).unwrap();
   let shards: Vec<std::sync::Mutex<std::io::BufWriter<std::fs::File>>> = (0..16)
@@ -250,7 +251,8 @@ pub fn generate() {
 /// Ingests the oracle's output (one JSON object per line) and finishes the run.
 pub fn report() {
   let run = Run::new("C02");
-  let path = "/verif/target/c02/verdicts.jsonl";
+  let path_s = format!("{}/target/c02/verdicts.jsonl", crate::report::root());
+  let path = path_s.as_str();
   let text = match std::fs::read_to_string(path) {
     Ok(t) => t,
     Err(e) => {
